@@ -4,6 +4,7 @@ use serde_json::{Value, json};
 use std::io::{BufRead, Write};
 
 mod ops_argv;
+mod ops_cargo;
 mod ops_context;
 mod ops_descriptor;
 mod ops_doc;
@@ -69,6 +70,7 @@ fn dispatch(op: &str, req: &Value) -> Value {
         "normalize-descriptor" => ops_descriptor::run(req),
         "runtime" => ops_runtime::run(req),
         "write-doc" => ops_doc::run(req),
+        "cargo-package" => ops_cargo::run(req),
         "dep-graph" => ops_graph::run(req),
         _ => json!({"error": format!("unknown op {op}")}),
     }
